@@ -7,6 +7,7 @@ package transfer
 
 import (
 	"fmt"
+	"strings"
 	"testing"
 	"time"
 
@@ -96,6 +97,45 @@ func (l *floodLog) answer(key string, n int, premium bool) error {
 	// parsing clause, on the errors the injector generates
 	if e.Type != typ || e.Argument != n {
 		simrt.Violate("C40", "C40.parse", "parse", "%q parsed as type %q argument %d", msg, e.Type, e.Argument)
+	}
+	return e
+}
+
+// genFatal builds the fatal RPC error of a run: upper-case words (some with
+// digits inside or in front) and at most one numeric argument at any
+// position. The parsing clause of C40 is checked on it: the type is the
+// message without the numeric part, the argument is that number.
+func genFatal(tape *simrt.Tape) *tgerr.Error {
+	words := []string{"FILE", "PART", "PARTS", "REFERENCE", "EXPIRED", "INVALID", "2FA", "CONFIRM", "PHONE", "4G", "LOCKED", "X", "Y9", "B2B", "3D", "SLOWMODE", "TAKEOUT", "INIT", "DELAY"}
+	n := 1 + tape.Choose(simrt.Wl, 4)
+	argAt := -1
+	if tape.Coin(simrt.Wl, 2, 3) {
+		argAt = tape.Choose(simrt.Wl, n+1)
+	}
+	arg := simrt.Pick(tape, simrt.Wl, 0, 1, 7, 60, 86400, 1<<31-1)
+	var parts, typ []string
+	for i := 0; i <= n; i++ {
+		if i == argAt {
+			parts = append(parts, fmt.Sprint(arg))
+		}
+		if i < n {
+			w := words[tape.Choose(simrt.Wl, len(words))]
+			parts = append(parts, w)
+			typ = append(typ, w)
+		}
+	}
+	msg := strings.Join(parts, "_")
+	e := tgerr.New(400, msg)
+	wantArg := 0
+	if argAt >= 0 {
+		wantArg = arg
+	}
+	wantTyp := strings.Join(typ, "_")
+	if len(parts) < 2 {
+		wantTyp = msg
+	}
+	if e.Type != wantTyp || e.Argument != wantArg || e.Message != msg {
+		simrt.Violate("C40", "C40.parse", "parse", "%q parsed as type %q argument %d (expected type %q argument %d)", msg, e.Type, e.Argument, wantTyp, wantArg)
 	}
 	return e
 }
